@@ -159,11 +159,21 @@ def suite_edges(ctx):
                 req = Request(svcs[svc], subfunction=sf)
                 # through a decorated wrapper-free path: send_request itself, then the decorator model via `sendd`
                 line = 'send %s svc=%s sf=%s rspr=0 data=- timeout=- arr=%s' % (cfg.line(), svc, onat(sf), cl.arrivals_str(arr))
+                if sf is not None and rng.random() < 0.25:
+                    # the application keeps one Request object (a keep-alive, say): it was already sent once on this client inside a suppress block
+                    conn.script = []
+                    with client.suppress_positive_response:
+                        try:
+                            client.send_request(req)
+                        except Exception:  # noqa
+                            pass
+                    conn.script = list(arr)
+                    s.count('request object sent before inside a suppress block')
                 obs = cl.observe(conn, lambda: client.send_request(req))
                 lines.append(line)
                 impl.append(obs)
                 out = obs.split(' out=')[1]
-                s.count('out=' + out.split(':')[0] + ':' + out.split(':')[1].split(' ')[0][:8])
+                s.count('out=' + ':'.join(x.split(' ')[0][:8] for x in out.split(':')[:2]))
                 if 'code=120' in out or 'negative:120' in out:
                     s.fail({'site': 'send_request', 'input': line, 'observed': out, 'required': '0x78 is never surfaced (pending replies end in a final reply or a timeout)'})
                 # the property read off the schedule (independent of the model): every in-time 0x78 keeps the request pending, the first other frame that
@@ -212,4 +222,10 @@ def suite_user_code(ctx):
     return core.suite_user_code('vendor_service', 'send_request')
 
 
-SUITES = [suite_call, suite_edges, suite_callw, suite_two_clients, suite_reentrant, suite_user_code]
+def suite_hist(ctx):
+    """whole histories against the model's hrun, read for this property (harness/histsw.py)"""
+    from .. import histsw
+    return histsw.suite_hist(ctx, 'C06')
+
+
+SUITES = [suite_call, suite_edges, suite_callw, suite_two_clients, suite_reentrant, suite_user_code, suite_hist]
